@@ -998,6 +998,15 @@ func splitTop(s string) []string {
 func (w *Walker) emit(st *wstate, e Event) {
 	fr := st.top()
 	e.Fn = QualName(fr.fn)
+	// an event inside a helper that did not exist when the rules were confirmed
+	// belongs to the nearest function up the call chain that did (constructs,
+	// and with them known findings, are keyed by that function)
+	for i := len(st.frames) - 1; i > 0; i-- {
+		if _, known := knownFuncs[QualName(st.frames[i].fn)]; known || st.frames[i].fn.Parent() != nil {
+			break
+		}
+		e.Fn = QualName(st.frames[i-1].fn)
+	}
 	e.Depth = len(st.frames) - 1
 	e.Held = append([]string(nil), st.held...)
 	if w.Cfg.KeepEvent != nil && e.Kind != "cond" && !w.Cfg.KeepEvent(&e) {
